@@ -52,8 +52,9 @@ Mask(bins) == [i \in 1..Len(bins) |-> (i - 1) + GapsBefore(bins, i)]
 
 Regular(bins) == \A i \in 1..Len(bins) : Right(bins[i]) - Left(bins[i]) = Right(bins[1]) - Left(bins[1])
 
-Rec(bins, kind) ==
-    [bins |-> bins, kind |-> kind, count |-> Len(bins),
+Rec(bins, kind, approx) ==
+    [bins |-> bins, kind |-> kind, approx |-> approx,     \* approx: edges were recomputed from a fixed-width recipe (equal up to rounding)
+     count |-> Len(bins),
      first |-> FirstEdge(bins), last |-> LastEdge(bins),
      consecutive |-> Consecutive(bins), regular |-> Regular(bins),
      masked |-> MaskedEdges(bins), mask |-> Mask(bins)]
@@ -66,7 +67,7 @@ Init == b = Null /\ calls = 0
 Make(bins, kind) ==
     /\ Live /\ On("Make") /\ b = Null
     /\ kind = "numpy" => Consecutive(bins)
-    /\ b' = Rec(bins, kind)
+    /\ b' = Rec(bins, kind, FALSE)
 
 (* unsorted, overlapping or empty-width specifications must be refused *)
 MakeRefused(bins, kind) ==
@@ -84,7 +85,7 @@ Slice(start, stop) ==
     /\ Live /\ On("Slice") /\ b # Null
     /\ LET n == Len(b.bins) lo == ClampIx(n, start, 0) hi == ClampIx(n, stop, n) IN
          /\ lo < hi
-         /\ b' = Rec(SubSeq(b.bins, lo + 1, hi), "static")
+         /\ b' = Rec(SubSeq(b.bins, lo + 1, hi), "static", b.approx)
 
 (* b == other for a binning made from bins2: equal iff the bins are equal *)
 EqCheck(bins2, result) ==
@@ -95,12 +96,12 @@ EqCheck(bins2, result) ==
 (* b.as_static() keeps the bins; b.as_fixed_width() is possible iff consecutive and regular (or a single bin) *)
 AsStatic ==
     /\ Live /\ On("AsStatic") /\ b # Null
-    /\ b' = Rec(b.bins, "static")
+    /\ b' = Rec(b.bins, "static", b.approx)
 
 AsFixedWidth(possible) ==
     /\ Live /\ On("AsFixedWidth") /\ b # Null
     /\ possible = (Len(b.bins) = 1 \/ (Consecutive(b.bins) /\ Regular(b.bins)))
-    /\ b' = IF possible THEN Rec(b.bins, "fixed") ELSE b
+    /\ b' = IF possible THEN Rec(b.bins, "fixed", TRUE) ELSE b
 
 ---------------------------------------------------------------------------
 (* Part B: rules.  Rationals are pairs <<num, den>>, den > 0. *)
